@@ -3,6 +3,7 @@
 mod c02;
 mod c09;
 mod c12;
+mod c15;
 mod flow;
 mod kit;
 
@@ -78,6 +79,13 @@ fn main() {
             run_dfs(&mut rep, "connect-accept", 0, wall, move |ch| c12::scenario(ch, thorough));
             rep.finish();
         }
+        "C15" => {
+            let mut rep = Report::new("C15", tier, "model_checking", "sim");
+            rep.rule = "stateless enumeration: every history of depth 5 (quick) / 6 (thorough) over {udp bind :0 / fixed, tcp listen :0 / fixed, tcp connect, drop k-th object, crash+bounce} on a host with a four-port ephemeral range, each result compared with a set-of-ports reference (incl. the documented exhaustion panic); DNS: every sequence of lookups / host registrations / literal and regex lookups over five names, plus 600 names, IPv4 and IPv6".into();
+            run_dfs(&mut rep, "ports", 0, wall, move |ch| c15::ports_scenario(ch, thorough));
+            run_dfs(&mut rep, "dns", 0, wall, move |ch| c15::dns_scenario(ch, thorough));
+            rep.finish();
+        }
         other => vx_core::machinery_error(&format!("vx-sim does not serve {other}")),
     }
 }
@@ -96,6 +104,13 @@ fn replay(path: &str) {
         "C03" => flow::c03_scenario(&mut ch, thorough),
         "C14" => flow::c14_scenario(&mut ch, thorough),
         "C12" => c12::scenario(&mut ch, thorough),
+        "C15" => {
+            if v["scenario"].as_str().map(|s| s.starts_with("c15-ports")).unwrap_or(false) {
+                c15::ports_scenario(&mut ch, thorough)
+            } else {
+                c15::dns_scenario(&mut ch, thorough)
+            }
+        }
         "C09" => {
             if v["scenario"].as_str().map(|s| s.starts_with("c09")).unwrap_or(false) {
                 c09::scenario(&mut ch, thorough)
